@@ -6,6 +6,12 @@ HERE = os.path.dirname(os.path.dirname(os.path.abspath(__file__)))
 
 # property id -> (simulator, design section, technique, level text, level note)
 BUILT = {
+    "C08": (
+        "E", "5/C08",
+        "deterministic simulation: real MockExchange::run + real MockExecution clients issuing concurrent operations at seeded virtual instants on a paused tokio runtime (lagging consumers, dropped callers, exchange shutdown); sequential ledger model applied in the exchange's acceptance order (linearizability with known linearization point)",
+        "Seeded search over concurrent programs of market/limit buy/sell orders (known/unknown instruments, prices at the exactly-affordable boundary), balance / trade / snapshot reads and cancels against any initial balances, fee and latency. Every response, every read, every stream notification and the final balances are compared with a sequential ledger replayed in the order the exchange took the requests off its channel.",
+        "Trusted: the ledger model and the pass-through tap on the request channel (adds one scheduling hop, preserves FIFO). One recorded finding (sell orders check and debit the quote asset) is matched only when the entire history agrees with that exact variant; otherwise the deviation from it is reported.",
+    ),
     "C07": (
         "C", "5/C07",
         "deterministic simulation: real ExecutionManager::run on a paused, seeded current-thread tokio runtime (discrete-event virtual time) behind a scripted ExecutionClient (delays around the timeout, silence, errors), history check with exact virtual timestamps",
